@@ -174,7 +174,7 @@ class AccessorTie:
                 self.el[id(e)] = e
                 p = e.getparent()
                 rows.append([id(e), id(p) if p is not None else None, e.tag, [[k, v] for k, v in e.attrib.items()], ol.xtype_of(e)])
-            frags.append({"name": name, "semantic": tr.fragment_type.name == "SEMANTIC", "ign": bool(tr._ModelFile__ignore_uuid_dups),
+            frags.append({"name": name, "semantic": tr.fragment_type.name == "SEMANTIC", "ign": bool(ol.private_state(tr).ignore_uuid_dups),
                           "idtypes": idtypes_of(name), "rows": rows})
         self.attrs = {n: tuple(sorted(e.attrib.items())) for n, e in self.el.items()}
         ans = self.drv.ask({"op": "acc.load", "frags": frags})
@@ -503,9 +503,10 @@ class AccessorTie:
                                   {"len": len(rows), "first_diff": rows[n:n + 1]}, {"len": len(m["rows"]), "first_diff": m["rows"][n:n + 1]})
                 self.resync(self.model)
                 return
-            idc = {k: (None if v is None else id(v)) for k, v in tr._ModelFile__idcache.items()}
-            xtc = {x: sorted(d) for x, d in tr._ModelFile__xtypecache.items() if d}
-            hrefs = {k: id(v) for k, v in tr._ModelFile__hrefsources.items()}
+            ps = ol.private_state(tr)
+            idc = {k: (None if v is None else id(v)) for k, v in ps.idcache.items()}
+            xtc = {x: sorted(d) for x, d in ps.xtypecache.items() if d}
+            hrefs = {k: id(v) for k, v in ps.hrefsources.items()}
             if idc != m["idc"] or xtc != m["xtc"] or hrefs != m["hrefs"]:
                 dk = {k: (idc.get(k, "<absent>"), m["idc"].get(k, "<absent>")) for k in set(idc) | set(m["idc"]) if idc.get(k, "<absent>") != m["idc"].get(k, "<absent>")}
                 self.out.disagree(self.STREAM + ".dump", [self.key, self.hist_id, *meta, name],
